@@ -1,10 +1,10 @@
 """C16 — byte-size notation is parsed exactly and printed consistently.
 
-Obligations: coq/Properties/C16.v (suffix table and constants regenerated from src/bytes.rs; exact
-parse of integers with <= 53 significant bits (product a u64), of fractions with a whole product below
-2^53 and of all other fractions below 2^46, for every spelling and letter case of every unit; only a
-well-formed number + table suffix is accepted; printed form, unit, `byte` iff 1, the numeral denotes the
-rounded hundredths, error bound for every u64; witnesses for the two residual float classes).
+Obligations: coq/Properties/C16.v (suffix table and constants regenerated from src/bytes.rs; `parse_exact`: every
+well-formed number I.F with every spelling and letter case of every unit parses to floor((I*10^f+F)*1024^k/10^f)
+clamped at 2^64-1, with the property's two clauses as corollaries; only a well-formed number + table suffix is
+accepted, no text panics; printed form, unit, `byte` iff 1, the numeral denotes the rounded hundredths, and the error
+bound of half a hundredth of the unit against the TRUE value for every u64).
 Correspondence: `bytes_parse` / `bytes_display` hooks vs the extracted model vs a direct oracle in
 exact rational arithmetic (fractions.Fraction) written from the property text; the real binary through
 `torrent create --piece-length <text>` (reads back `piece length`) and `--terminal torrent show`
@@ -14,38 +14,38 @@ from fractions import Fraction
 import lib
 
 MANIFEST = dict(
-    text="Machine-checked proof over a text-level model of FromStr/Display for Bytes in exact integer arithmetic (binary64 as "
-         "mantissa/exponent, correctly rounded decimal->binary, u64->f64 as round-to-nearest-even): every integer with every "
-         "spelling and case of every unit is exact below 2^53 (indeed whenever it has at most 53 significant bits and the product is "
-         "a u64), every fraction with at most two decimals is the exact truncated product when that is a whole number below 2^53 or "
-         "anything below 2^46, nothing but a well-formed number plus a table suffix parses; for all 2^64 values the printed unit "
-         "is the largest not exceeding the double, the numeral has at most two decimals without trailing zeros, `byte` iff 1, "
-         "and the error is at most half a hundredth of the unit (of the true value up to 2^53). The suffix table, multipliers, "
-         "display suffixes and loop constants are regenerated from src/bytes.rs on every run; model and code are run against "
-         "each other and against a Fraction oracle on generated inputs, and the real binary is driven end to end. Right level: "
-         "gib..eib and rounding at unit boundaries are never tested and the quantifier is over all u64 / all strings.",
+    text="Machine-checked proof over a text-level model of FromStr/Display for Bytes as repaired by `fix: compute byte sizes "
+         "exactly instead of through f64` (integer arithmetic in u128 with its saturating and checked operators; binary64 only "
+         "in the choice of the printed unit, as round-to-nearest-even of the u64): every well-formed number - any number of "
+         "integer and fraction digits, leading zeros, `.5`, `5.` - with every spelling and case of every unit parses to the exact "
+         "product truncated to whole bytes, clamped at 2^64-1 (so integers are exact whenever the product fits in 64 bits, and "
+         "fractions are truncated, with no residual class); nothing but a well-formed number plus a table suffix parses and no "
+         "text panics; for all 2^64 values the printed unit is the largest not exceeding the double, the numeral has at most two "
+         "decimals without trailing zeros, `byte` iff 1, and the printed value is within half a hundredth of the unit of the TRUE "
+         "value. The suffix table, multipliers, display suffixes, number base, scale and loop constants are regenerated from "
+         "src/bytes.rs on every run; model and code are run against each other and against a Fraction oracle on generated "
+         "inputs, and the real binary is driven end to end. Right level: gib..eib and rounding at unit boundaries are never "
+         "tested and the quantifier is over all u64 / all strings.",
     ref="DESIGN.md section 5, C16",
     technique="Coq proof over a Gallina model + translator-generated tables + model/implementation correspondence run",
-    note="Two residual classes of the f64 path are false under the literal reading and are reported as known findings "
-         "(witness lemmas c16_parse_fraction_residual, c16_display_residual): non-integral fractional products in [2^46, 2^53) can "
-         "be off by one; above 2^53 the printed value can miss the true value by 0.005 unit plus the u64->f64 rounding. "
+    note="The two findings of the f64 path (parse-fraction-ge-2^46, display-gt-2^53) are repaired in /repo and their witnesses "
+         "are regression cases of the corpus and Examples of coq/Properties/C16.v. "
          "Interpretation: a malformed number is one with no digit or more than one dot (`.5` and `5.` are numbers, as "
-         "f64::from_str reads them); letter case is Unicode lower-casing as Rust performs it (KELVIN SIGN folds to k). "
-         "Assumed: f64::from_str is correctly rounded, `{:.2}` prints the exact binary value rounded half-even - both exercised "
-         "by the run. Trusted: Coq kernel, tools/rs2v_bytes.py, extraction + driver, hooks + harness, Python oracle.")
+         "f64::from_str reads them - it is still the well-formedness test); letter case is Unicode lower-casing as Rust performs "
+         "it (KELVIN SIGN folds to k); products at and beyond 2^64 saturate at 2^64-1 (the property is silent there; the oracle "
+         "demands the clamp the theorem states). Assumed: f64::from_str accepts exactly D+, D+., .D+, D+.D+ over [0-9.] - "
+         "exercised by the run. Trusted: Coq kernel, tools/rs2v_bytes.py, extraction + driver, hooks + harness, Python oracle.")
 
 U64 = (1 << 64) - 1
 UNIT_POW = {"": 0, "b": 0, "byte": 0, "bytes": 0, "kib": 1, "mib": 2, "gib": 3, "tib": 4, "pib": 5, "eib": 6}
 DISPLAY_UNITS = ["KiB", "MiB", "GiB", "TiB", "PiB", "EiB"]
-K_PARSE = "parse-fraction-ge-2^46"
-K_DISP = "display-gt-2^53"
 
 
 # ------------------------------------------------------------------ direct oracle (property text, exact arithmetic)
 
 def oracle_parse(text):
-    """('ok', n) the property fixes the value; ('err',) it must be rejected; ('any',) the property is silent
-    (product does not fit in 53 bits, or more than two decimals); plus a dict of facts for classification."""
+    """('ok', n) the value the text denotes: the exact product truncated to whole bytes (clamped at 2^64-1, where the property
+    itself is silent); ('err',) it must be rejected; plus a dict of facts for classification."""
     i = 0
     while i < len(text) and text[i] in "0123456789.":
         i += 1
@@ -57,23 +57,14 @@ def oracle_parse(text):
     ip, _, fp = num.partition(".")
     value = (Fraction(int(ip or "0")) + (Fraction(int(fp), 10 ** len(fp)) if fp else 0)) * 1024 ** k
     facts = {"value": value, "decimals": len(fp), "unit_pow": k}
-    if value.denominator == 1:
-        # an integer product: fixed when it fits in 53 bits (53 significant bits; it must also be a u64)
-        p = value.numerator
-        if p < 1 << 64 and (p == 0 or (p // (p & -p)) < 1 << 53):
-            return ("ok", p), facts
-        return ("any",), facts
-    if value >= 1 << 53 or len(fp) > 2:
-        return ("any",), facts
-    return ("ok", value.numerator // value.denominator), facts
+    return ("ok", min(value.numerator // value.denominator, U64)), facts
 
 
 def oracle_display(n, out):
-    """list of complaints about the printed text `out` for the value n (empty = fine), and whether every complaint is
-    of the residual class (error bound only, n > 2^53, fine against the double)"""
+    """list of complaints about the printed text `out` for the value n (empty = fine)"""
     m = re.fullmatch(r"([0-9]+)(?:\.([0-9]{1,2}))? (byte|bytes|KiB|MiB|GiB|TiB|PiB|EiB)", out)
     if not m:
-        return ["not of the form <digits>[.<1-2 digits>] <unit>"], False
+        return ["not of the form <digits>[.<1-2 digits>] <unit>"]
     ip, fp, word = m.group(1), m.group(2), m.group(3)
     bad = []
     if fp is not None and fp.endswith("0"):
@@ -87,15 +78,12 @@ def oracle_display(n, out):
     want_word = ("byte" if n == 1 else "bytes") if i == 0 else DISPLAY_UNITS[i - 1]
     if word != want_word:
         bad.append("unit %s, expected %s (largest unit not exceeding the value as a double)" % (word, want_word))
-        return bad, False
+        return bad
     printed = Fraction(int(ip)) + (Fraction(int(fp), 10 ** len(fp)) if fp else 0)
     unit = 1024 ** i
-    residual = False
     if abs(printed - Fraction(n, unit)) > Fraction(1, 200):
-        if n > 1 << 53 and abs(printed - Fraction(v, unit)) <= Fraction(1, 200) and not bad:
-            residual = True
         bad.append("printed %s differs from the true value %s/%d by more than 0.005" % (printed, n, unit))
-    return bad, residual
+    return bad
 
 
 # ------------------------------------------------------------------ generators
@@ -125,6 +113,16 @@ CORPUS_PARSE = [
     "0.000000000000000000000000000001eib", "0." + "0" * 400 + "1eib", "9" * 400, "9" * 309 + "." + "9" * 50 + "kib",
     "0.015625gib", "0.0000152587890625tib", "0.00000001490116119384765625pib", "0.0000000000145519152283668518066406250eib",
     "1.5mib", "1.5pib", "0.5eib", "1.25pib", "0.1", "0.3gib", "123.456tib", "1.005kib", "2.675kib",
+    # regression cases of the repaired findings and of the old domain restrictions
+    "2.99pib", "0.99999999999999999999", "0." + "9" * 20, "0." + "9" * 60, "0." + "9" * 60 + "kib", "." + "0" * 17 + "1eib",
+    "." + "0" * 18 + "1eib", "." + "0" * 59 + "1eib", "1." + "0" * 59 + "1", "99999999999999999999999999", "0.5" + "0" * 40 + "eib",
+    "0.5" + "0" * 39 + "1eib", "0.4" + "9" * 40 + "eib", "15.99999999999999999eib", "15." + "9" * 24 + "eib", "15." + "9" * 18 + "eib",
+    "16383.999pib", "16383.9999999999999999pib", "16384pib", "18446744073709551615.999", "18446744073709551614.999",
+    "18446744073709551615.", "18446744073709551616.0", "9007199254740993kib", "9007199254740993.5", "18014398509481983.75",
+    "17179869183.999999999gib", "17179869184gib", "340282366920938463463374607431768211455", "340282366920938463463374607431768211456",
+    "340282366920938463463374607431768211455eib", "295147905179352825855eib", "295147905179352825856eib", "295147905179352825857.5eib",
+    "34028236692093846346337460743176821145", "34028236692093846346337460743176821146", "3402823669209384634633746074317682114559",
+    "0.1eib", "0.7pib", "1152921504606846975.9", "1125899906842623.99kib", "8191.99pib", "63.99pib", "64.01pib",
 ]
 
 
@@ -207,6 +205,72 @@ def gen_parse(ctx):
             num = 5 ** e              # 2^-e = 5^e / 10^e
             cases.append("0.%0*d%s" % (e, num, sp))
             cases.append("%d.%0*d%s" % (r.randrange(1, 8), e, num, sp.upper()))
+    # ---- what the float path could not do (repaired by the integer evaluation)
+    # many decimals (1-60 digits) with every unit; all-nine, zeros-then-one, exact-half and random digit patterns
+    def frac_digits(f):
+        kind = r.randrange(7)
+        if kind == 0:
+            return "9" * f
+        if kind == 1:
+            return "0" * (f - 1) + "1"
+        if kind == 2:
+            return "5" + "0" * (f - 1)
+        if kind == 3:
+            return "4" + "9" * (f - 1)
+        if kind == 4:
+            return "5" + "0" * max(0, f - 2) + ("1" if f > 1 else "")
+        return "".join(r.choice("0123456789") for _ in range(f))
+    for _ in range(ctx.n(9000, 200000)):
+        sp = r.choice(spellings)
+        k = UNIT_POW[sp]
+        f = r.randrange(1, 61)
+        mode = r.randrange(5)
+        if mode == 0:
+            I = ""
+        elif mode == 1:
+            I = "0" * r.randrange(1, 4)
+        else:
+            ib = r.randrange(0, max(1, 66 - 10 * k))
+            I = str(r.getrandbits(ib)) if ib else "0"
+        cases.append("%s.%s%s" % (I, frac_digits(f), r.choice(case_variants(sp, r, 3))))
+    # products in [2^46, 2^64) that are not whole numbers
+    for _ in range(ctx.n(9000, 200000)):
+        sp = r.choice(spellings)
+        k = UNIT_POW[sp]
+        bits = r.randrange(46, 65)
+        ibits = bits - 10 * k
+        if ibits <= 0:
+            continue
+        I = r.getrandbits(ibits) | (1 << (ibits - 1)) if r.randrange(4) else (1 << ibits) - 1 - r.randrange(0, 2)
+        f = r.choice((1, 2, 2, 3, 5, 9, 17, 18, 19, 20, 25, 40))
+        cases.append("%d.%s%s" % (I, frac_digits(f), sp))
+    # whole numbers with more than 53 significant bits (only unit-less / byte spellings fit in 64 bits; with a unit they saturate)
+    for _ in range(ctx.n(2500, 50000)):
+        bits = r.randrange(54, 65)
+        I = r.getrandbits(bits) | (1 << (bits - 1)) | 1
+        sp = r.choice(("", "", "b", "B", "byte", "bytes", "kib", "mib"))
+        cases.append("%d%s" % (I, sp))
+        if r.randrange(4) == 0:
+            cases.append("%s%d.%s%s" % ("0" * r.randrange(0, 3), I, frac_digits(r.randrange(1, 30)), sp))
+    # at and beyond 2^64: the last values below the clamp, the first above, far above (also beyond 2^128)
+    for sp in spellings:
+        k = UNIT_POW[sp]
+        top = (1 << 64) >> (10 * k)
+        for I in (top - 2, top - 1, top, top + 1):
+            for fd in ("", ".", ".0", ".5", "." + "9" * 3, "." + "9" * 25, "." + "0" * 25 + "1"):
+                cases.append("%d%s%s" % (I, fd, sp))
+        for _ in range(ctx.n(12, 300)):
+            I = r.getrandbits(r.randrange(64 - 10 * k, 200)) | (1 << (64 - 10 * k))
+            cases.append("%d%s%s" % (I, r.choice(("", ".5", ".999")), sp))
+        t128 = ((1 << 128) >> (10 * k))
+        for I in (t128 - 1, t128, t128 + 1):
+            cases.append("%d%s" % (I, sp))
+        # the u128 accumulators must saturate, not wrap: whole parts just above a multiple of 2^128, and whole parts whose
+        # product with the unit is just above a multiple of 2^128 (a wrapped result would be small and look plausible)
+        for j in (1, 2, 3, 7, 10, 99, r.randrange(1, 1 << 20)):
+            for x in (0, 4, 5, 6, 9, 10, 16, r.randrange(0, 1 << 16), r.randrange(0, 1 << 40), r.randrange(0, 1 << 62)):
+                cases.append("%d%s" % ((j << 128) + x, sp))
+                cases.append("%d%s%s" % (j * t128 + (x >> (10 * k)), r.choice(("", ".5", ".99")), sp))
     # ---- malformed stream
     mal = []
     alphabet = "0123456789..bBkKmMgGtTpPeEiIyYsS xX+-_,eEKİıé٣１\n\t"
@@ -287,10 +351,33 @@ def gen_display(ctx):
         for _ in range(ctx.n(40, 800)):
             base = (1 << k) + (r.getrandbits(6) << (k - 6))
             pts.add(base + r.randrange(-3, 4))
-            # dyadic ties of the printed hundredths above 2^53 (residual class)
+            # dyadic ties of the printed hundredths above 2^53 (the class of the repaired finding)
             unit_pow = 5 if k < 60 else 6
             e = 1 << (10 * unit_pow - 3)
             pts.add((base // e) * e + e + r.choice((-1, 1, 2)))
+    # every exact tie (odd eighths of the unit give x.xx5) above 2^53, +-1: PiB and EiB
+    for unit_pow in (5, 6):
+        e = 1 << (10 * unit_pow - 3)
+        for m in range(8, 8192):
+            if (1 << 53) < m * e <= U64 + 1:
+                for d in (-2, -1, 0, 1, 2):
+                    pts.add(m * e + d)
+        # all rounding thresholds (j + 0.5)/100 of the unit above 2^53 (a sample in quick)
+        u = 1 << (10 * unit_pow)
+        js = range(100, 102400)
+        if not ctx.thorough:
+            js = r.sample(js, 3000)
+        for j in js:
+            t = ((2 * j + 1) * u) // 200
+            if t > 1 << 53:
+                for d in (-1, 0, 1):
+                    pts.add(t + d)
+    # values whose conversion to double moves them across a tie or a unit boundary
+    for k in range(54, 65):
+        for _ in range(ctx.n(150, 3000)):
+            sp = 1 << (k - 53)                 # spacing of doubles in [2^(k-1), 2^k)
+            base = (r.getrandbits(52) | (1 << 52)) * sp
+            pts.add(base + sp // 2); pts.add(base + sp // 2 - 1); pts.add(base + sp // 2 + 1); pts.add(base + r.randrange(sp))
     for _ in range(ctx.n(15000, 800000)):
         k = r.randrange(1, 65)
         pts.add(r.getrandbits(k))
@@ -327,14 +414,10 @@ def judge_parse(ctx, t, i, m):
         return
     if exp[0] == "ok" and int(i[3:]) != exp[1]:
         v = facts["value"]
-        key = None
-        if facts["decimals"] > 0 and v >= 1 << 46 and v.denominator != 1:
-            key = K_PARSE
-        ctx.violation("oracle-failure", "%r parsed to %s, expected %d (= %s truncated)" % (t, i[3:], exp[1], v), case, key=key)
-        if key is not None:
-            # a known residual case must still be what the faithful model predicts
-            if m != i:
-                ctx.violation("model-impl-disagreement", "model and code differ on the residual-class input %r (impl %s, model %s)" % (t, i, m), case)
+        what = "%s truncated" % v if v < 1 << 64 else "the product is 2^64 or more: clamped"
+        if len(what) > 120:
+            what = what[:117] + "..."
+        ctx.violation("oracle-failure", "%r parsed to %s, expected %d (= %s)" % (t if len(t) < 90 else t[:87] + "...", i[3:], exp[1], what), case)
         return
     mi = m if m.startswith("OK ") else "ERR" if m.startswith("ERR") else m
     ii = i if ok_i else "ERR"
@@ -353,12 +436,10 @@ def judge_display(ctx, n, i, m, where="hook"):
         return
     out = lib.unhex(i[3:]).decode("utf-8", "replace")
     case["printed"] = out
-    bad, residual = oracle_display(n, out)
+    bad = oracle_display(n, out)
     ctx.count("display_unit_" + out.split(" ")[-1])
     if bad:
-        ctx.violation("oracle-failure", "%d printed as %r: %s" % (n, out, "; ".join(bad)), case, key=K_DISP if residual else None)
-        if residual and m != i:
-            ctx.violation("model-impl-disagreement", "model and code differ on the residual-class value %d" % n, case)
+        ctx.violation("oracle-failure", "%d printed as %r: %s" % (n, out, "; ".join(bad)), case)
         return
     if m != i:
         ctx.cov["disagreements_checked"] += 1
@@ -386,8 +467,10 @@ def run(ctx):
         else:
             v = facts["value"]
             ctx.count("parse_valid_unit_1024^%d" % facts["unit_pow"])
-            ctx.count("parse_valid_decimals_%s" % (facts["decimals"] if facts["decimals"] <= 2 else "3+"))
-            ctx.count("parse_valid_product_" + ("lt_2^46" if v < 1 << 46 else "2^46..2^53" if v < 1 << 53 else "ge_2^53"))
+            d = facts["decimals"]
+            ctx.count("parse_valid_decimals_%s" % (d if d <= 2 else "3..17" if d <= 17 else "18..60" if d <= 60 else "61+"))
+            ctx.count("parse_valid_product_" + ("lt_2^46" if v < 1 << 46 else "2^46..2^53" if v < 1 << 53 else "2^53..2^64" if v < 1 << 64 else "ge_2^64")
+                      + ("" if v.denominator == 1 else "_fractional"))
             ctx.distinct(("acc", facts["unit_pow"], facts["decimals"], facts["value"].numerator.bit_length() - facts["value"].denominator.bit_length()))
         judge_parse(ctx, t, i, m)
     for t in ("1.5mib", "4503599627370496.75", "1Kib", "1.0.0"):
@@ -475,8 +558,6 @@ def e2e(ctx):
                 if rc == 0:
                     ctx.violation("oracle-failure", "create accepted the malformed size %r" % t, case)
                 continue
-            if exp[0] != "ok":
-                continue
             want = exp[1]
             if want == 0 or want >= 1 << 32:
                 if rc == 0:
@@ -496,7 +577,8 @@ def e2e(ctx):
 
         # `--terminal torrent show` prints content size and piece size through Display for Bytes
         vals = [0, 1, 2, 1023, 1024, 1025, 1536, 1024 ** 2 - 1, 1024 ** 3 + 1024 ** 3 // 8, 1024 ** 4 * 3 // 2, 1024 ** 5 - 1,
-                1024 ** 6, (1 << 60) - 1, (1 << 63) - 1, (1 << 53) + (1 << 47) + 1]   # bencode integers are i64
+                1024 ** 6, (1 << 60) - 1, (1 << 63) - 1, (1 << 53) + (1 << 47) + 1, 9147936743096321,
+                (1 << 53) + 3 * (1 << 47) + 1, 5 * (1 << 57) + 1, 5 * (1 << 57) - 1]   # bencode integers are i64
         for _ in range(ctx.n(25, 400)):
             vals.append(r.getrandbits(r.randrange(1, 64)))
         if len(vals) % 2:
@@ -523,32 +605,35 @@ def e2e(ctx):
                 mm = re.search(r"^\s*" + label + r"  (.*)$", text, re.M)
                 if not mm:
                     ctx.violation("oracle-failure", "show printed no %s row" % label, case); continue
-                bad, residual = oracle_display(val, mm.group(1))
+                bad = oracle_display(val, mm.group(1))
                 ctx.distinct(("show", mm.group(1)))
                 if bad:
                     ctx.violation("oracle-failure", "show printed %s %d as %r: %s" % (label, val, mm.group(1), "; ".join(bad)),
-                                  dict(case, value=val), key=K_DISP if residual else None)
+                                  dict(case, value=val))
     finally:
         shutil.rmtree(tmp, ignore_errors=True)
 
 
 def finish(ctx):
     ctx.assumptions += [
-        "f64::from_str is correctly rounded (nearest, ties to even) on digit strings with an optional point - modelled by to53, exercised through the hook",
-        "`{:.2}` prints the exact binary value rounded half-even to two decimals - modelled by hundredths/fmt2, exercised at the exact ties k/8 of every unit",
-        "u64 as f64 is round-to-nearest-even (Model/Float53.round53); f64 as u64 truncates and saturates",
+        "f64::from_str (now only the well-formedness test) accepts exactly D+, D+., .D+, D+.D+ over the characters [0-9.] - modelled by parse_number, exercised through the hook",
+        "u64 as f64 is round-to-nearest-even (Model/Float53.round53) - it only selects the printed unit",
+        "`{}` / `{:02}` print a u128 in decimal, the latter padded to two digits (fmt2)",
         "str::to_lowercase maps only A-Z and U+212A into the ASCII letters of the table (every scalar with a case mapping is tried in the thorough tier, a seeded sample in quick)",
-        "interpretation: a malformed number has no digit or more than one dot; products that do not fit in 53 bits and fractions with more than two decimals are compared model-vs-code only",
+        "interpretation: a malformed number has no digit or more than one dot; products of 2^64 and more saturate at 2^64-1 (the property is silent there)",
     ]
     return ctx.finish(
-        rule="parse: corpus of edge strings; every unit spelling x every letter-case variant x integers 0, 1, 7, largest fitting 53 bits, random; "
-             "products at and beyond 2^53 and 2^64; one/two-decimal fractions with products of every size incl. straddling 2^46 and 2^53; "
-             ".F / I. forms, 3-23 decimals, 20-420 digit numerals, exact dyadic fractions through gib..eib; malformed stream = random short strings over a "
+        rule="parse: corpus of edge strings incl. the witnesses of the two repaired findings; every unit spelling x every letter-case variant x integers 0, 1, 7, "
+             "largest fitting 53 and 64 bits, random; one/two-decimal fractions with products of every size incl. straddling 2^46 and 2^53; "
+             "1-60 decimals (all nines, zeros then a one, exact halves, random) with every unit; non-integral products in [2^46, 2^64); whole numbers with "
+             "54-64 significant bits; the last values below and the first at/above 2^64 per unit, up to beyond 2^128, whole parts and products just above multiples of 2^128 (wrap-around would look plausible); "
+             ".F / I. forms, 20-420 digit numerals, exact dyadic fractions through gib..eib; malformed stream = random short strings over a "
              "digits/letters/unicode alphabet, one-edit mutations of valid inputs, every sampled scalar with a case mapping substituted into a suffix. "
              "display: 0..11999, every 1024^i with +-3, x2, x1000, x1024, top of each unit, eighths (exact ties) +-1, rounding thresholds +-1, tenths +-1, "
-             "values within 2^-53 of 2^60/2^63/2^64, ties above 2^53, random of every bit length. distinct/non-trivial: accepted inputs by "
+             "values within 2^-53 of 2^60/2^63/2^64, every exact tie of PiB/EiB above 2^53 +-2, rounding thresholds above 2^53, halfway points of the "
+             "u64->double conversion, random of every bit length. distinct/non-trivial: accepted inputs by "
              "(unit, decimals, magnitude), rejected by prefix, printed by text. E2E: create --piece-length and --terminal show on the real binary",
-        trusted_base=["Coq 8.16.1 kernel (coqc), vm_compute for table facts and witnesses", "tools/rs2v_bytes.py (GenBytes)",
+        trusted_base=["Coq 8.16.1 kernel (coqc), vm_compute for table facts and examples", "tools/rs2v_bytes.py (GenBytes)",
                       "extraction with ExtrOcamlBasic + runner/driver.d/bytesize.ml (UTF-8 decoding)",
                       "Rust hooks bytes_parse / bytes_display + harness line protocol", "Python oracle (fractions.Fraction, float()) in tools/props/c16.py"],
     )
@@ -571,7 +656,7 @@ def replay(ctx, path):
         print("value  :", n)
         print("impl   : %r" % out)
         print("model  : %r" % (lib.unhex(m[3:]).decode("utf-8", "replace") if m.startswith("OK ") else m))
-        print("oracle :", oracle_display(n, out)[0] or "fine")
+        print("oracle :", oracle_display(n, out) or "fine")
     else:
         print(json.dumps(case, indent=1)[:3000])
     return 0
